@@ -123,6 +123,7 @@ PRIMITIV_C_STATUS primitivAddModelToOptimizer(
 
 PRIMITIV_C_STATUS primitivAddModelsToOptimizer(
     primitivOptimizer_t *optimizer, primitivModel_t **models, size_t n) try {
+  PRIMITIV_C_CHECK_NOT_NULL(optimizer);
   Optimizer *cc_optimizer = to_cpp_ptr(optimizer);
   PRIMITIV_C_CHECK_NOT_NULL(models);
   for (size_t i = 0; i < n; ++i) {
@@ -166,7 +167,6 @@ PRIMITIV_C_STATUS primitivSetOptimizerIntConfig(
     uint32_t value) try {
   PRIMITIV_C_CHECK_NOT_NULL(optimizer);
   PRIMITIV_C_CHECK_NOT_NULL(key);
-  PRIMITIV_C_CHECK_NOT_NULL(value);
   std::unordered_map<std::string, uint32_t> uint_configs{{key, value}};
   std::unordered_map<std::string, float> float_configs;
   to_cpp_ptr(optimizer)->set_configs(uint_configs, float_configs);
@@ -192,7 +192,6 @@ PRIMITIV_C_STATUS primitivSetOptimizerFloatConfig(
     primitivOptimizer_t *optimizer, const char *key, float value) try {
   PRIMITIV_C_CHECK_NOT_NULL(optimizer);
   PRIMITIV_C_CHECK_NOT_NULL(key);
-  PRIMITIV_C_CHECK_NOT_NULL(value);
   std::unordered_map<std::string, uint32_t> uint_configs;
   std::unordered_map<std::string, float> float_configs{{key, value}};
   to_cpp_ptr(optimizer)->set_configs(uint_configs, float_configs);
